@@ -192,7 +192,9 @@ type model struct {
 	passActive bool
 	lastIdx    int
 	connected  map[string]bool
-	failed     map[string]bool
+	failed     map[string]bool // TRANSIENT_FAILURE delivered during this pass (never cleared within the pass)
+	failedLast map[string]bool // ... and no Connect() for the address since (no attempt outstanding)
+	failedAt0  map[string]bool // reused subchannel was in TRANSIENT_FAILURE at pass start; cleared if it is re-attempted
 
 	sticky        bool
 	ready         *fakecc.SubConn
@@ -226,11 +228,13 @@ func (m *model) startPass() {
 	m.lastIdx = -1
 	m.connected = map[string]bool{}
 	m.failed = map[string]bool{}
+	m.failedLast = map[string]bool{}
+	m.failedAt0 = map[string]bool{}
 	m.skipOK = map[string]bool{}
 	for a := range m.idx {
 		if sc := m.liveByAddr[a]; sc != nil {
 			if m.state[sc] == connectivity.TransientFailure {
-				m.failed[a] = true
+				m.failedAt0[a] = true
 			}
 			if m.state[sc] == connectivity.TransientFailure || m.state[sc] == connectivity.Connecting {
 				m.skipOK[a] = true
@@ -239,12 +243,31 @@ func (m *model) startPass() {
 	}
 }
 
+// mayEndPass: every address has failed at least once in this pass (or was
+// failing when the pass started and has not been re-attempted). pick_first MAY
+// end the pass now: whether it waits for the outcome of a re-attempt of an
+// address whose reused subchannel already failed during this pass depends on
+// where its cursor stands, and the statement does not decide that.
+func (m *model) mayEndPass() bool {
+	if len(m.L) == 0 {
+		return false
+	}
+	for _, a := range m.L {
+		if m.liveByAddr[a] == nil || !(m.failed[a] || m.failedAt0[a]) {
+			return false
+		}
+	}
+	return true
+}
+
+// allFailed: every address has failed and no attempt is outstanding; pick_first
+// MUST have reported TRANSIENT_FAILURE.
 func (m *model) allFailed() bool {
 	if len(m.L) == 0 {
 		return false
 	}
 	for _, a := range m.L {
-		if m.liveByAddr[a] == nil || !m.failed[a] {
+		if m.liveByAddr[a] == nil || !(m.failedLast[a] || m.failedAt0[a]) {
 			return false
 		}
 	}
@@ -317,7 +340,12 @@ func (m *model) walk(e fakecc.Entry, inTimerOp bool) {
 			m.lastIdx = i
 		}
 		m.connected[a] = true
-		m.failed[a] = false
+		// A failure observed during the pass stays (pick_first does not wait
+		// for the outcome of a re-attempt of an address that already failed
+		// in this pass); only the "was failing when the pass started" mark of
+		// a reused subchannel is void once it is re-attempted.
+		m.failedAt0[a] = false
+		m.failedLast[a] = false
 		if inTimerOp {
 			m.timerConnects++
 		}
@@ -334,6 +362,7 @@ func (m *model) walk(e fakecc.Entry, inTimerOp bool) {
 			if m.passActive {
 				if _, ok := m.idx[a]; ok && m.liveByAddr[a] == e.SC {
 					m.failed[a] = true
+					m.failedLast[a] = true
 					m.skipOK[a] = true
 					if m.idx[a] != m.lastIdx {
 						m.outOfTurnTF++
@@ -388,7 +417,7 @@ func (m *model) walk(e fakecc.Entry, inTimerOp bool) {
 				}
 			}
 		case connectivity.TransientFailure:
-			if m.passActive && m.allFailed() {
+			if m.passActive && m.mayEndPass() {
 				// the pass ends here; Connect() calls that follow re-connect
 				// IDLE subchannels and are not part of the pass.
 				m.passActive, m.sticky = false, true
